@@ -936,7 +936,8 @@ class vPeriod(TimeBase):
         # set the timezone identifier
         # does not support different timezones for start and end
         tzid = tzid_from_dt(start)
-        if tzid:
+        if tzid and tzid != 'UTC':
+            # UTC is written as a Z suffix
             self.params['TZID'] = tzid
 
         self.start = start
